@@ -198,7 +198,20 @@ func Gen(t *rapid.T, used map[string]bool, from string, to string, big int) Spec
 		}
 	}
 	// body
-	switch rapid.IntRange(0, 3).Draw(t, "body_kind") {
+	switch rapid.IntRange(0, 4).Draw(t, "body_kind") {
+	case 4: // a table / indented text: runs of blanks (the LZHUF window starts out filled with blanks)
+		rows := rapid.IntRange(1, 12).Draw(t, "rows")
+		var sb strings.Builder
+		for i := 0; i < rows; i++ {
+			cols := rapid.IntRange(1, 4).Draw(t, "cols")
+			sb.WriteString(strings.Repeat(" ", rapid.IntRange(0, 12).Draw(t, "indent")))
+			for j := 0; j < cols; j++ {
+				sb.WriteString(rapid.SampledFrom([]string{"Station", "Band", "Report", "LA1B", "59", "20m", "x", "QTH"}).Draw(t, "cell"))
+				sb.WriteString(strings.Repeat(" ", rapid.IntRange(2, 70).Draw(t, "gap")))
+			}
+			sb.WriteString("|\r\n")
+		}
+		s.Body = sb.String()
 	case 0: // short text
 		s.Body = rapid.StringMatching(`[ -~]{1,80}`).Draw(t, "body")
 		if strings.TrimSpace(s.Body) == "" {
